@@ -274,8 +274,14 @@ def loop_block_e6(ctx):
                                     elc = ("elem", e6.strip_upd(mp[0]), "cl%s" % mp[1][1])
                                     okm = isinstance(v_, tuple) and v_[0] == "idx" and e6.strip_upd(v_[1]) == elc and LIN(e6.strip_upd(v_[2])) == IDX
                         else:
+                            # the same list built by a push loop over the record (`for pass in fpres.iter() { v.push(&pass[idx]) }`)
                             es = e6.elementwise_sequence(E, a) if a is not None else None
                             okm = False
+                            if es is not None and rooted(es[0], rec_n):
+                                S_, v_, el_ = es
+                                if not (rmv and not formB and not e6.find_terms(S_, lambda u_: u_[0] == "upd" and "::remove@" in u_[2])):
+                                    v0_ = e6.strip_upd(v_)
+                                    okm = isinstance(v0_, tuple) and v0_[0] == "idx" and e6.strip_upd(v0_[1]) == e6.strip_upd(el_) and LIN(e6.strip_upd(v0_[2])) == IDX
                         good = good and okp and okm
                 note("operands:Mean", good, "Mean step: %s" % [e6.show(e[2], 2)[:40] + " <- " + e6.show(e[3][0], 2)[:60] for e in muts])
                 continue
